@@ -340,8 +340,13 @@ pub fn demand_active(p: &Profile, share_id: u32) -> B {
 }
 
 pub fn deactivate_all(p: &Profile, share_id: u32) -> B {
+    deactivate_all_with(p, share_id, &[0])
+}
+
+/// the source descriptor is a variable-length field (Windows sends one null byte)
+pub fn deactivate_all_with(p: &Profile, share_id: u32, descriptor: &[u8]) -> B {
     let mut body = B::new();
-    body.u32le("dea.shareId", share_id).u16le("dea.lengthSourceDescriptor", 1).bytes("dea.sourceDescriptor", &[0]);
+    body.u32le("dea.shareId", share_id).u16le("dea.lengthSourceDescriptor", descriptor.len() as u16).bytes("dea.sourceDescriptor", descriptor);
     share_control(0x0016, p.server_channel, &body)
 }
 
